@@ -10,10 +10,11 @@ _NOTE = ("Trusted: Coq 8.16.1 kernel; extraction (ExtrOcamlBasic) + OCaml 4.13.1
          "is compared with generate.Compile on the text (original order of every file + every 32nd reordering; the other "
          "texts start from Parser.Defs(), dumped by the harness); Go harness / OCaml driver / check.py glue. "
          "Print Assumptions: closed under the global context (no axioms). Stdlib only, no Flocq: floats are bit patterns. "
-         "Not expressible in the model and therefore outside the theorems: INT attribute values are routed through float64 "
-         "by Parser.int() (model and code agree); a literal with more than 53 significant bits (|v| > 2^53) is rounded by "
-         "both, so 'the value written in the source' holds exactly only for values that are exact in float64 (all integers "
-         "up to 2^53; class files use only such values; wild files compare the rounding).")
+         "INT attribute values: since the fix F12 Parser.int() (code and model) reads a decimal integer literal exactly "
+         "over the whole int64 range (Properties/C04.v C04_int_conversion_exact), so 'the value written in the source' "
+         "holds for every int64 start value / attribute value written as a decimal integer (class files go up to both "
+         "int64 limits); only the '.0' and exponent spellings still travel through float64 (class files use them up to "
+         "2^53, where they are exact; wild files compare the rounding and the saturation).")
 
 PROPERTIES = {
     "C05": {
@@ -40,7 +41,7 @@ PROPERTIES = {
 RULE = ("seeded generator of DESIGN 4.2 files (1..20 nodes, 0..22 messages standard/extended incl. the limits of both id "
         "ranges, 0..12 signals incl. multiplexer/multiplexed with shared start bits and the limits of start/size/multiplexer "
         "value, signal names reused across messages, VAL_/CM_/SIG_VALTYPE_/BA_ for the four attributes in all spellings, "
-        "INT/HEX attribute values, ranges and defaults beyond 2^24 and 2^32 up to 2^53 (plain, '.0' and exponent spellings; "
+        "INT/HEX attribute values, ranges and defaults beyond 2^24, 2^32 and 2^53 up to the int64 limits (decimal integers; '.0' and exponent spellings up to 2^53; "
         "start values of wide signals, cycle and delay times), factors/offsets/min/max with up to 25 significant digits, "
         "rounding boundaries and the ends of the exponent range, UTF-8 (2/3/4-byte) in units, comments, value texts and "
         "string attributes, VAL_ values at the raw range limits of 1/63/64-bit signed and unsigned signals, "
